@@ -59,6 +59,8 @@ func runC04(c *report.Ctx) {
 	checkFrontEndInvokeRecord(c)
 	checkNoServerTimeouts(c)
 	checkInvokeRefusalPath(c) // the in-flight reservation is released by nobody but its own invocation
+	checkRegisteredAgentsSize(c)
+	checkRegisterHandlers(c) // what an extension subscribed to is what it asked for
 	c.Clause("0 the barrier primitive (shared with C11)")
 	checkGatePrimitive(c)
 	c.Clause("1 doInvoke order")
@@ -116,15 +118,7 @@ func runC04(c *report.Ctx) {
 		}
 		c.Check("R-WIRE", name+"/count-is-number-of-subscribers", "the number of extensions awaited is exactly the number of INVOKE subscribers (internal + external) about to be released", okSum, an.InstrPos(call), 2, "argument is len(intAgents)+len(extAgents) of the queried slices: %v", okSum)
 	}
-	// AwaitAgentsReady under HasActiveExtensions
-	for _, call := range an.CallsTo(outer, invokeFlowI+"AwaitAgentsReady") {
-		g := facts.Holds(call.Block(), func(ft an.Fact) bool { return ft.Val && an.IsResultOf(ft.Cond, rapidCtxT+".HasActiveExtensions", -1) })
-		c.Check("R-GUARD", name+"/guard/AwaitAgentsReady", "the invocation waits for the extensions whenever any extension is registered", g, an.InstrPos(call), 1, "under HasActiveExtensions(): %v", g)
-	}
-	if h := fn(c, "L/rapid", "(*rapidContext).HasActiveExtensions"); h != nil {
-		ok := len(an.CallsTo(h, "L/extensions.AreEnabled")) == 1 && len(an.CallsTo(h, regSvcI+"CountAgents")) == 1
-		c.Check("R-GUARD", an.FuncName(h)+"/definition", "'active extensions' means extensions enabled and at least one registered", ok, fpos(h), 2, "%v", ok)
-	}
+	checkInvokeWaitsForExtensions(c)
 
 	// the release closure
 	var rel, ovh *ssa.Function
@@ -245,7 +239,12 @@ func runC04(c *report.Ctx) {
 		c.Check("R-WHO", "invoke-gates/"+strings.TrimPrefix(callee, "L/core."), "the invoke barriers are re-armed, sized, awaited and walked through only by the documented parties", strings.Join(got, ",") == strings.Join(w, ","), token.NoPos, len(got), "callers: %v", got)
 	}
 	c.Clause("5 re-arm")
-	checkFlow(c, "invokeFlowSynchronizationImpl", []string{"InitializeBarriers"}, map[string]string{"InitializeBarriers": "Reset"}, nil)
+	checkFlow(c, "invokeFlowSynchronizationImpl", []string{"InitializeBarriers"}, map[string]string{"InitializeBarriers": "Reset"},
+		[][]string{ // each await waits on the gate its arrival walks through
+			{"RuntimeReady", "AwaitRuntimeReady", ""},
+			{"RuntimeResponse", "AwaitRuntimeResponse", ""},
+			{"AgentReady", "AwaitAgentsReady", "SetAgentsReadyCount"},
+		})
 	// the renderer serves runtime and agents from the same Invoke record
 	if ra := fn(c, "L/rapi/rendering", "(*InvokeRenderer).RenderAgentEvent"); ra != nil {
 		ok := false
@@ -370,5 +369,25 @@ func checkHandlersSerialised(c *report.Ctx) {
 		ok := len(calls) == 1 && held.At(calls[0])[lp] && held.Defers[lp]
 		sites := callSites(c, "L/rapid."+h.inner)
 		c.Check("R-LOCK", "L/rapid.rapidContext."+h.m+"/serialised", "invocations, resets and shutdowns are handled one at a time (handler mutex held around the handler body, which has no other caller)", ok && len(sites) == 1, fpos(f), 2, "held: %v; callers of the body: %v", ok, siteFns(sites))
+	}
+}
+
+// checkInvokeWaitsForExtensions: an invocation is complete - and its reservation given back - only after every
+// registered extension, internal ones included, asked for its next event.
+func checkInvokeWaitsForExtensions(c *report.Ctx) {
+	outer := fn(c, "L/rapid", "doInvoke$1")
+	if outer == nil {
+		return
+	}
+	facts := an.NewFacts(outer)
+	name := an.FuncName(outer)
+	// AwaitAgentsReady under HasActiveExtensions
+	for _, call := range an.CallsTo(outer, invokeFlowI+"AwaitAgentsReady") {
+		g := facts.Holds(call.Block(), func(ft an.Fact) bool { return ft.Val && an.IsResultOf(ft.Cond, rapidCtxT+".HasActiveExtensions", -1) })
+		c.Check("R-GUARD", name+"/guard/AwaitAgentsReady", "the invocation waits for the extensions whenever any extension is registered", g, an.InstrPos(call), 1, "under HasActiveExtensions(): %v", g)
+	}
+	if h := fn(c, "L/rapid", "(*rapidContext).HasActiveExtensions"); h != nil {
+		ok := len(an.CallsTo(h, "L/extensions.AreEnabled")) == 1 && len(an.CallsTo(h, regSvcI+"CountAgents")) == 1
+		c.Check("R-GUARD", an.FuncName(h)+"/definition", "'active extensions' means extensions enabled and at least one registered", ok, fpos(h), 2, "%v", ok)
 	}
 }
